@@ -341,6 +341,49 @@ def run(tier, seed):
         cfg = random_cfg(rng, tier)
         actions = random_schedule(cfg, rng, cancel_prob=0.08)
         handle(cfg, actions)
+    # the handle: after any sequential progress, tee.aclose() / `async with tee` closes every child (advanced or not),
+    # deregisters every buffer and closes the source exactly once
+    from gencalc import drive
+    for k in range(60 if tier == "quick" else 1000):
+        n = rng.choice([1, 2, 3, 4])
+        src = Source(mk_items(rng.randrange(0, 5)), 0)
+        t = a.tee(src, n)
+        kids = list(t)
+        if len(t) != n or t[0] is not kids[0]:
+            fails += 1
+            rep.violation("tee:handle", {"why": "tee handle is not indexable/iterable as documented"})
+            break
+
+        async def go():
+            for _ in range(rng.randrange(0, 8)):
+                i = rng.randrange(n)
+                r = rng.random()
+                try:
+                    if r < 0.8:
+                        await kids[i].__anext__()
+                    else:
+                        await kids[i].aclose()
+                except StopAsyncIteration:
+                    pass
+            if rng.random() < 0.5:
+                await t.aclose()
+            else:
+                async with t:
+                    pass
+            await t.aclose()          # closing again is harmless
+        try:
+            drive(go())
+            why = None
+        except BaseException as e:  # noqa
+            why = "closing the tee failed: %r" % (e,)
+        bufs = getattr(t, "_buffers", [])
+        rep.count(("tee-handle", k), True)
+        if why is None and (src.closed != 1 or len(bufs) != 0):
+            why = "after tee.aclose(): source closed %d times, %d buffers still registered" % (src.closed, len(bufs))
+        if why:
+            fails += 1
+            rep.violation("tee:handle", {"children": n, "why": why})
+            break
     rep.notes["configuration_distribution"] = dist
     shards = [texts[i:i + 300] for i in range(0, len(texts), 300)]
     outs = coq_eval_files("c09", [HEADER + "Definition cases : list tcase := [\n" + ";\n".join(sh) + "\n].\nEval vm_compute in (tfailing cases).\n" for sh in shards])
